@@ -185,6 +185,32 @@ def run(ctx):
         mates = [n for (g, n) in advances if g is f and paths.paired(f, s["node"], n)]
         ctx.check(r3, len(mates) == 1, key(f, "qstart_time"), f.where(s["node"]), "qstart_time changed (`%s %s`) without a matching head advance on the same paths" % (s["path"], s["op"]))
 
+    # dropping queued frames without the clock: the length is reset (n = 0) only where no timestamp is
+    # reported afterwards - when the endpointer is created and when the stream ends
+    resetters = set()
+    for f in fns.values():
+        for s_ in paths.field_stores(f, REC, "n"):
+            if s_["op"] == "=" and f.name != "endpointer_init":
+                resetters.add(f.name)
+    reach = set(resetters)
+    grew = True
+    while grew:
+        grew = False
+        for f in fns.values():
+            if f.name not in reach and any(f.nodes[c_].get("callee") in reach for c_ in f.calls()):
+                reach.add(f.name)
+                grew = True
+    for nm in sorted(reach - resetters):
+        f = fns[nm]
+        c_ = [c_ for c_ in f.calls() if f.nodes[c_].get("callee") in reach][0]
+        ctx.check(r3, nm in ("endpointer_end_stream", "endpointer_init"), key(f, "drop-without-clock"), f.where(c_), "%s empties the queue (through %s) while the stream goes on: the frames dropped never advance qstart_time, so every later speech_start / speech_end lags the samples returned by their duration" % (nm, f.nodes[c_].get("callee")))
+    for nm in sorted(resetters):
+        f = fns[nm]
+        if nm in ("endpointer_end_stream",):
+            continue
+        # a resetter of its own: nothing but the reset (it does not report times or frames)
+        ctx.check(r3, not paths.field_stores(f, REC, "qstart_time") and not f.find("Return") or nm == "ep_clear", key(f, "resetter"), f.where(f.root), "%s resets the queue length and does more than that" % nm)
+
     # push: exactly one of {n++, head advance}, head advance iff full
     push = fns["ep_push"]
     r3b = ctx.rule("PAIR.push", "ep_push: on every path exactly one of `n++` / head advance; the head advances only when the queue is full; frame and flag are stored at the same index (pos+n)%maxlen", floor=4)
